@@ -131,32 +131,43 @@ def _model_dict(m, limit=400):
     return out
 
 
+def _attempt(text, timeout_ms, mbqi, auto):
+    z3.set_param("smt.mbqi", mbqi)
+    z3.set_param("smt.auto_config", auto)
+    ctx = z3.Context()
+    s = z3.Solver(ctx=ctx)
+    s.set("timeout", timeout_ms)
+    s.from_string(text)
+    r = s.check()
+    reason = ""
+    model = None
+    if r == z3.sat:
+        model = _model_dict(s.model())
+    elif r == z3.unknown:
+        reason = s.reason_unknown()
+        try:
+            model = _model_dict(s.model())
+        except Exception:
+            model = None
+    return str(r), reason, model
+
+
 def _worker(job):
+    """Portfolio per VC.  1. E-matching only (mbqi off): every quantified hypothesis carries explicit patterns and
+    model-based instantiation mostly spins on satisfiable queries; a saturated, contradiction-free search ends
+    quickly in `unknown (incomplete quantifiers)` with a candidate model.  2. z3's default configuration
+    (auto_config, mbqi) for the remaining budget -- needed for non-linear real arithmetic."""
     name, text, timeout_ms, expect = job
     t0 = time.time()
     try:
-        # E-matching only: every quantified hypothesis carries explicit patterns; model-based instantiation
-        # mostly spins on satisfiable queries.  With mbqi off a saturated, contradiction-free search ends
-        # quickly in `unknown (incomplete quantifiers)` with a candidate model.
-        z3.set_param("smt.mbqi", MBQI)
-        z3.set_param("smt.auto_config", False)
-        ctx = z3.Context()
-        s = z3.Solver(ctx=ctx)
-        s.set("timeout", timeout_ms)
-        s.from_string(text)
-        r = s.check()
-        res = str(r)
-        reason = ""
-        model = None
-        if r == z3.sat:
-            model = _model_dict(s.model())
-        elif r == z3.unknown:
-            reason = s.reason_unknown()
-            try:
-                model = _model_dict(s.model())
-            except Exception:
-                model = None
-        return dict(name=name, result=res, reason=reason, model=model, time=time.time() - t0, solver="z3-" + z3.get_version_string())
+        res, reason, model = _attempt(text, timeout_ms // 2 if expect == "unsat" else timeout_ms, False, False)
+        cfg = "ematch"
+        if res != "unsat" and expect == "unsat" and res != "sat":
+            res2, reason2, model2 = _attempt(text, timeout_ms // 2, True, True)
+            if res2 in ("unsat", "sat"):
+                res, reason, model, cfg = res2, reason2, model2 if res2 == "sat" else model, "default"
+        return dict(name=name, result=res, reason=reason, model=model, time=time.time() - t0,
+                    solver=f"z3-{z3.get_version_string()}[{cfg}]")
     except Exception as e:  # crash of the back end: undecided, never a violation
         return dict(name=name, result="error", reason=repr(e), model=None, time=time.time() - t0, solver="z3")
 
@@ -274,7 +285,7 @@ def discharge(vcs, axiom_index, jobs=JOBS, timeout_ms=Z3_TIMEOUT_MS, keep_smt=3,
                 out.append(Verdict(vc, "refuted", s2["solver"], r["time"] + s2["time"], "cvc5: sat; z3: " + str(r["reason"]), r["model"], smt))
             else:
                 reason = str(r["reason"])
-                quick = r["time"] * 1000 < 0.8 * timeout_ms and "timeout" not in reason and "canceled" not in reason
+                quick = "timeout" not in reason and "canceled" not in reason
                 if quick and "incomplete" in reason and not vc.tainted and r["model"] is not None:
                     # E-matching saturated without contradiction: a candidate counter-model exists
                     out.append(Verdict(vc, "refuted", r["solver"], r["time"],
